@@ -41,7 +41,16 @@ let judge _id (c : cursor) (r : cursor) : bool * string =
       let mlast = List.nth mvf h in
       List.iter (fun b ->
           if not (q_eq (vbest mlast b) (eV_r m (nat_of_int h) b)) then disagree "model_value_is_EV" "ip_run" "model surface differs from EV (model bug)";
-          if not (closeq (vbest mlast b) (vbest last b)) then disagree "ip_surface" site "model and implementation surfaces differ") bs
+          if not (closeq (vbest mlast b) (vbest last b)) then disagree "ip_surface" site "model and implementation surfaces differ") bs;
+      (* every vector the implementation keeps (LP pruning) is one of the model's vectors (pointwise pruning keeps
+         a superset; among equal vectors of duplicate actions either copy may survive, so actions are not compared here), at every horizon: exactly when |O| is a power of two (R/|O| exact), within 1e-8 otherwise *)
+      let exact = List.mem (int_of_nat m.nO) [1; 2; 4; 8] in
+      let same x y = if exact then q_eq x y else closeq x y in
+      List.iteri (fun t il ->
+          let ml = List.nth mvf t in
+          List.iter (fun (ie : ventry) ->
+              if not (List.exists (fun (me : ventry) -> List.length me.vals = List.length ie.vals && List.for_all2 same me.vals ie.vals) ml)
+              then disagree "ip_vectors_subset" site (Printf.sprintf "horizon %d: an implementation vector is not among the model's vectors" t)) il) vf
     end;
     (h >= 2 && int_of_nat m.nO >= 2, alg)
   | "rtbss" ->
